@@ -260,6 +260,19 @@ def _worker(arg):
                     res["fails"].append({"window": [i0, i1, j0, j1], "chunk": "3", "join": True, "error": repr(ex)})
     finally:
         fh.close()
+    # a collection stored in a nested group of a file that holds another collection reads the same
+    try:
+        import shutil as _sh
+        nest = path + ".nested.cool"
+        cooler.create_cooler(nest + "::/other", make_bins(max(n, 2)), pd.DataFrame({"bin1_id": [0], "bin2_id": [max(n, 2) - 1], "count": [7]}))
+        cooler.create_cooler(nest + "::/a/b", make_bins(n), df, symmetric_upper=case["symm"], mode="a", **kw)
+        cn = cooler.Cooler(nest + "::a/b")
+        fulln = np.round(np.asarray(cn.matrix(balance=False, chunksize=2, **fkw)[:, :]) * scale).astype(np.int64)
+        if not (fulln.astype(object) == F).all() or cn.pixels()[:].shape[0] != len(b1):
+            res["fails"].append({"window": "[:, :] of file::a/b (nested group)", "got_dense": fulln.tolist(), "expected_dense": F.tolist()})
+        os.unlink(nest)
+    except Exception as e:
+        res["fails"].append({"window": "[:, :] of file::a/b (nested group)", "error": repr(e)})
     # store forms: path string and URI give the same full matrix
     try:
         full = np.round(np.asarray(cooler.Cooler(path).matrix(balance=False, **fkw)[:, :]) * scale).astype(np.int64)
